@@ -22,6 +22,10 @@ package hash
 //@   nopanic[C05]
 //@   requires hash != nil && hash.h != nil
 //@   requires each(data, d, hashable(d))
+// Framing (C19, C06, C09): the data chunk of an item that encodes itself (WriterToWithDomain) is everything its
+// WriteTo put into the fresh buffer -- exactly what buf.Bytes() returned -- under the item's own domain string.
+//@   assert_at[C19,C06,C09] Write "_, _ = hash.h.Write(toBeWritten.Bytes)": implements(d, WriterToWithDomain) ==> bval(arg1) == lastbytes(Bytes)
+//@   assert_at[C19,C06,C09] Write "_, _ = hash.h.Write(toBeWritten.Bytes)": typeis(d, []byte) ==> bval(arg1) == bval(d.([]byte))
 
 //@ func (*Hash).Digest
 //@   nopanic[C05]
